@@ -19,6 +19,7 @@
 #include <pthread.h>
 #include <signal.h>
 #include <unistd.h>
+#include <time.h>
 #define ZDICT_STATIC_LINKING_ONLY
 #include "zdict.h"
 #if defined(__has_feature)
@@ -44,8 +45,21 @@ static void logf_(const char* fmt, unsigned long long a, unsigned long long b) {
     if (g_loglen + (size_t)n + 2 > g_logcap) { g_logcap = g_logcap ? g_logcap * 2 : 4096; g_log = (char*)realloc(g_log, g_logcap); }
     memcpy(g_log + g_loglen, tmp, (size_t)n); g_loglen += (size_t)n; g_log[g_loglen] = 0;
 }
+/* Parking (own_pool_mt_abandon*): while g_parkFrom > 0, the g_parkFrom-th and later requests made by a thread other than the caller's (i.e. by a
+ * compression job running on a pool thread) wait inside the allocator until the helper of the scenario lets them go.  This makes "a job of the
+ * context is running at the moment the caller frees the context" certain whatever the load of the machine; nothing parks in the other scenarios. */
+static pthread_t g_mainThr;
+static volatile int g_parkFrom, g_parkSeen, g_parkedNow, g_parkRelease;
+static void park_here(void) {
+    if (g_parkFrom > 0 && !__atomic_load_n(&g_parkRelease, __ATOMIC_SEQ_CST) && !pthread_equal(pthread_self(), g_mainThr)) {
+        int const ord = __atomic_add_fetch(&g_parkSeen, 1, __ATOMIC_SEQ_CST);
+        if (ord >= g_parkFrom) { __atomic_add_fetch(&g_parkedNow, 1, __ATOMIC_SEQ_CST);
+            while (!__atomic_load_n(&g_parkRelease, __ATOMIC_SEQ_CST)) usleep(500);
+            __atomic_sub_fetch(&g_parkedNow, 1, __ATOMIC_SEQ_CST); } }
+}
 void* zv_fault_alloc(size_t size) {
     void* p;
+    park_here();
     pthread_mutex_lock(&g_mx);
     if (g_counting) { g_calls++; if (g_calls == g_failAt || g_calls == g_failAt2) { g_fired++; logf_("x%llu ", size, 0); pthread_mutex_unlock(&g_mx); return NULL; } }
     p = malloc(size ? size : 1);
@@ -96,7 +110,7 @@ static int rt_ok(const unsigned char* src, size_t n, const unsigned char* c, siz
 /* ---- scenario state ---- */
 typedef struct { ZSTD_CCtx* c; ZSTD_DCtx* d; ZSTD_CDict* cd; ZSTD_DDict* dd; ZSTD_DDict* dds[40]; int ndds; unsigned char* frame; size_t fsz; size_t fsz2; unsigned char* frame2; size_t n2; int plain;
     /* own_* scenarios: a second context sharing the caller's objects, the caller's thread pool, the caller's buffer (referenced, never copied) and a private copy of its content */
-    ZSTD_CCtx* c2; ZSTD_DCtx* d2; ZSTD_threadPool* pool; int poolLedger; int tasks0; unsigned char* obuf; unsigned char* ocopy; size_t osz;
+    ZSTD_CCtx* c2; ZSTD_DCtx* d2; ZSTD_threadPool* pool; int poolLedger; int tasks0; int earlyFree; unsigned char* obuf; unsigned char* ocopy; size_t osz;
     unsigned char* mdict[40]; size_t mdictSz[40]; unsigned char* mframe[40]; size_t mfsz[40]; } S;
 typedef struct { const char* name; void (*setup)(S*); size_t (*op)(S*, char* why); void (*reset)(S*); size_t (*probe)(S*, char* why); } scen_t;
 static size_t alt_small(S* s, char* why);   /* after the failed call + reset: a smaller job that fits what the context already held */
@@ -224,6 +238,55 @@ static size_t op_own_pool(S* s, char* why, int workers, int ldm, int jobSize, si
 static size_t op_own_pool_mt(S* s, char* why) { return op_own_pool(s, why, 2, 0, 0, 1500000, 0); }
 static size_t op_own_pool_mt_public(S* s, char* why) { return op_own_pool(s, why, 3, 1, 524288, 2000000, 1); }
 static size_t op_own_pool_mt_more_workers(S* s, char* why) { return op_own_pool(s, why, 4, 0, 524288, 2500000, 1); }   /* existing mtctx on the caller's pool: pools / job table resized */
+/* The caller gives a frame up and frees the context while jobs of that context are in flight on the BORROWED pool (what a caller does after any
+ * mid-stream error, here also with the k-th request failing somewhere before).  The pool's threads outlive the context, so ZSTD_freeCCtx itself has to
+ * wait for the jobs it posted: a job still running when it returns works on the freed job table / buffer, cctx and sequence pools / round buffer.
+ * Monitors: ZSTD_freeCCtx does not return while a job of the context is parked in the allocator (probe=FAIL:context-freed-while-N-of-its-jobs-ran),
+ * the ledger of the whole run is clean (a job that outlives its context allocates into pools nobody frees), the pool's blocks and threads survive,
+ * a second context compresses on the pool, ASan sees no access to the quarantined blocks. */
+typedef struct { int poolThreads; int workers; int ldm; int level; int jobSize; int flushFirst; int parkFrom; size_t feed; } abandon_t;
+static volatile int g_inFree, g_parkStop;
+static long now_ms(void) { struct timespec ts; clock_gettime(CLOCK_MONOTONIC, &ts); return (long)(ts.tv_sec * 1000 + ts.tv_nsec / 1000000); }
+static void* park_helper(void* o) { long const t0 = now_ms(); long tf = -1; (void)o;
+    for (;;) { usleep(2000); if (g_parkStop) break; if (g_inFree && tf < 0) tf = now_ms();
+        if (tf >= 0 && now_ms() - tf >= 120) break;            /* the caller has been inside ZSTD_freeCCtx for 120 ms */
+        if (now_ms() - t0 >= 3000) break; }                    /* safety: never hold a job for more than 3 s */
+    __atomic_store_n(&g_parkRelease, 1, __ATOMIC_SEQ_CST); return NULL; }
+static size_t op_abandon(S* s, char* why, abandon_t a) { size_t r = 0; pthread_t h; ZSTD_inBuffer ib; ZSTD_outBuffer ob; int guard, early; size_t off = 0; (void)why;
+    if (!s->pool) return NULLRES;
+    if (!s->c) s->c = ZSTD_createCCtx_advanced(CM);
+    if (!s->c) return NULLRES;
+    r = ZSTD_CCtx_refThreadPool(s->c, s->pool);
+    if (!ZSTD_isError(r)) r = set(s->c, ZSTD_c_nbWorkers, a.workers);
+    if (!ZSTD_isError(r)) { set(s->c, ZSTD_c_compressionLevel, a.level); set(s->c, ZSTD_c_jobSize, a.jobSize); set(s->c, ZSTD_c_checksumFlag, 1);
+        if (a.ldm) { set(s->c, ZSTD_c_enableLongDistanceMatching, 1); set(s->c, ZSTD_c_windowLog, 20); } }
+    if (!ZSTD_isError(r) && a.flushFirst) {        /* some jobs of the frame are already complete and flushed (doneJobID > 0) */
+        ib.src = SRC; ib.size = (size_t)a.jobSize + 70000; ib.pos = 0; ob.dst = DST; ob.size = DSTCAP; ob.pos = 0;
+        for (guard = 0; guard < 100000; guard++) { r = ZSTD_compressStream2(s->c, &ob, &ib, ZSTD_e_flush); if (ZSTD_isError(r) || (r == 0 && ib.pos == ib.size)) break; }
+        off = ib.size; }
+    g_parkSeen = 0; g_parkedNow = 0; g_parkRelease = 0; g_parkStop = 0; g_inFree = 0; g_parkFrom = a.parkFrom;
+    pthread_create(&h, NULL, park_helper, NULL);
+    if (!ZSTD_isError(r)) { ib.src = SRC + off; ib.size = a.feed; ib.pos = 0; ob.dst = DST; ob.size = 0; ob.pos = 0;
+        for (guard = 0; guard < 64 && ib.pos < ib.size; guard++) { r = ZSTD_compressStream2(s->c, &ob, &ib, ZSTD_e_continue); if (ZSTD_isError(r)) break; } }
+    if (!ZSTD_isError(r) && a.parkFrom > 0) { long const t0 = now_ms();      /* a posted job reaches the allocator within a few ms */
+        while (!__atomic_load_n(&g_parkedNow, __ATOMIC_SEQ_CST) && now_ms() - t0 < 400) usleep(500); }
+    /* whatever happened so far, the caller abandons the frame and releases the context */
+    g_inFree = 1;
+    ZSTD_freeCCtx(s->c); s->c = NULL;
+    early = __atomic_load_n(&g_parkedNow, __ATOMIC_SEQ_CST);
+    pthread_join(h, NULL);
+    { long const t0 = now_ms(); while (__atomic_load_n(&g_parkedNow, __ATOMIC_SEQ_CST) && now_ms() - t0 < 2000) usleep(500); }
+    if (early) { usleep(60000); s->earlyFree = early; }       /* let the outliving job run on: the sanitizer build sees what it touches */
+    g_parkFrom = 0; g_inFree = 0;
+    return ZSTD_isError(r) ? r : 0; }
+static size_t probe_pool_abandon(S* s, char* why) { if (s->earlyFree) { sprintf(why, "context-freed-while-%d-of-its-jobs-ran", s->earlyFree); return GENERIC_; } return probe_pool(s, why); }
+static void su_own_pool_abandon(S* s) { su_own_pool_(s, 2, 1, 0); }
+static void su_own_pool_abandon_public(S* s) { su_own_pool_(s, 3, 0, 0); }
+static void su_own_pool_abandon_warm(S* s) { su_own_pool_(s, 4, 1, 1); }
+static size_t op_own_pool_mt_abandon(S* s, char* why) { abandon_t const a = { 2, 2, 0, 1, 524288, 0, 1, 524288 + 300000 }; return op_abandon(s, why, a); }                 /* job 0 has not allocated anything yet */
+static size_t op_own_pool_mt_abandon_ldm(S* s, char* why) { abandon_t const a = { 3, 3, 1, 3, 1048576, 0, 2, 2 * 1048576 + 300000 }; return op_abandon(s, why, a); }       /* two jobs posted, one past its first request; pool not visible to the ledger */
+static size_t op_own_pool_mt_abandon_flushed(S* s, char* why) { abandon_t const a = { 2, 1, 0, 1, 524288, 1, 1, 524288 + 100000 }; return op_abandon(s, why, a); }         /* earlier jobs of the frame complete and flushed */
+static size_t op_own_pool_mt_abandon_warm(S* s, char* why) { abandon_t const a = { 4, 3, 0, 5, 524288, 0, 3, 3 * 524288 + 100000 }; return op_abandon(s, why, a); }         /* the context had compressed on the pool before; three jobs */
 /* referenced CDict (by reference on the caller's buffer) */
 static void su_own_cdict_(S* s, int warm) { own_begin(); own_buf(s); s->cd = ZSTD_createCDict_advanced(s->obuf, s->osz, ZSTD_dlm_byRef, ZSTD_dct_auto, ZSTD_getCParams(3, 0, DICTSZ), CM); own_end();
     if (warm) su_cctx_warm(s); else su_cctx(s); s->c2 = ZSTD_createCCtx_advanced(CM); }
@@ -307,6 +370,8 @@ static scen_t const SCEN[] = {
     /* objects the caller still owns must survive a failed call */
     { "own_pool_mt", su_own_pool, op_own_pool_mt, rs_cctx, probe_pool }, { "own_pool_mt_public", su_own_pool_public, op_own_pool_mt_public, rs_cctx, probe_pool },
     { "own_pool_mt_more_workers", su_own_pool_warm, op_own_pool_mt_more_workers, rs_cctx, probe_pool },
+    { "own_pool_mt_abandon", su_own_pool_abandon, op_own_pool_mt_abandon, rs_cctx, probe_pool_abandon }, { "own_pool_mt_abandon_ldm", su_own_pool_abandon_public, op_own_pool_mt_abandon_ldm, rs_cctx, probe_pool_abandon },
+    { "own_pool_mt_abandon_flushed", su_own_pool_abandon, op_own_pool_mt_abandon_flushed, rs_cctx, probe_pool_abandon }, { "own_pool_mt_abandon_warm", su_own_pool_abandon_warm, op_own_pool_mt_abandon_warm, rs_cctx, probe_pool_abandon },
     { "own_cdict_mt", su_own_cdict, op_own_cdict_mt, rs_cctx, probe_cdict }, { "own_cdict_grow", su_own_cdict_warm, op_own_cdict_grow, rs_cctx, probe_cdict },
     { "own_prefix_mt", su_own_prefix, op_own_prefix_mt, rs_cctx, probe_prefix }, { "own_prefix_grow", su_own_prefix_warm, op_own_prefix_grow, rs_cctx, probe_prefix },
     { "own_dictref_mt", su_own_prefix, op_own_dictref_mt, rs_cctx, probe_prefix },
@@ -316,7 +381,7 @@ static scen_t const SCEN[] = {
 static void on_alarm(int sg) { (void)sg; { static const char m[] = "TIMEOUT\n"; if (write(1, m, sizeof m - 1) < 0) {} } _exit(3); }
 
 int main(void) {
-    char* line; size_t i; signal(SIGALRM, on_alarm);
+    char* line; size_t i; signal(SIGALRM, on_alarm); g_mainThr = pthread_self();
     SRC = (unsigned char*)malloc(BIG); BACK = (unsigned char*)malloc(BIG); DSTCAP = ZSTD_compressBound(BIG); DST = (unsigned char*)malloc(DSTCAP); DICT = (unsigned char*)malloc(DICTSZ);
     gen_data(SRC, BIG, 4242); memcpy(DICT, SRC + 1000000, DICTSZ);
     while ((line = zv_getline())) {
